@@ -2,7 +2,7 @@
   GfsModel.ExpectedSrc — per property, the digest of the fingerprints of the declarations of /repo its model and
   specification were written from (one hash per function / type / var / const with comments and layout not counted,
   one per C++ file; see tools/gofacts), recorded by tools/mkexpected.py when the model was last aligned with the
-  code (/repo at c7985e5). GfsGen/Facts.lean carries the digests re-extracted on every run; the theorems
+  code (/repo at 0461a13). GfsGen/Facts.lean carries the digests re-extracted on every run; the theorems
   Cxx_source in GfsProps prove them equal. ExpectedSrc.json lists the hashes behind each digest.
 -/
 namespace Gfs
@@ -12,8 +12,8 @@ def expectedSourceDigestC02 : String := "3853c0c70e739ffc"
 def expectedSourceDigestC03 : String := "95a1d4c974c4a76c"
 def expectedSourceDigestC04 : String := "95a1d4c974c4a76c"
 def expectedSourceDigestC05 : String := "da7fabdb95d0d537"
-def expectedSourceDigestC06 : String := "6f8e0a8af43c2fef"
-def expectedSourceDigestC07 : String := "6f8e0a8af43c2fef"
+def expectedSourceDigestC06 : String := "e75584ab8617f9a2"
+def expectedSourceDigestC07 : String := "e75584ab8617f9a2"
 def expectedSourceDigestC08 : String := "3853c0c70e739ffc"
 def expectedSourceDigestC09 : String := "f57991e1d1176d95"
 def expectedSourceDigestC10 : String := "c31c101567f36241"
@@ -21,11 +21,11 @@ def expectedSourceDigestC11 : String := "3bd0516427fc8e59"
 def expectedSourceDigestC12 : String := "95a1d4c974c4a76c"
 def expectedSourceDigestC13 : String := "d8e254c32a8556c8"
 def expectedSourceDigestC14 : String := "95a1d4c974c4a76c"
-def expectedSourceDigestC15 : String := "169e06f830bdda19"
-def expectedSourceDigestC16 : String := "169e06f830bdda19"
-def expectedSourceDigestC17 : String := "96053b2ed6b3fb2d"
-def expectedSourceDigestC18 : String := "ae7b2b8a7e731f30"
-def expectedSourceDigestC19 : String := "87f4653bce31a11a"
+def expectedSourceDigestC15 : String := "bd04fd902c6467ba"
+def expectedSourceDigestC16 : String := "bd04fd902c6467ba"
+def expectedSourceDigestC17 : String := "a0d3f67602d08a8c"
+def expectedSourceDigestC18 : String := "ce7059884f105e4c"
+def expectedSourceDigestC19 : String := "002d8ea52dad27cb"
 def expectedSourceDigestC20 : String := "658897532d70f619"
 
 end Gfs
